@@ -15,29 +15,29 @@ CLAIMED = {
     technique="Verus contracts on mechanically extracted function bodies + inductive history lemmas",
     design="2/C17"),
  "C01": dict(
-    text="Proof of the leaf operations the reference semantics bottoms out in and of the call/return protocol. Verus (unbounded, extracted every run): 21 Stack/StackFrame primitives against a Seq<Value> view, index_from, Deref; call_function_with_upvars (exact / partial / over-application layouts), the PartialApplication arm of do_call, the return statements of execute_ and ExecuteContext::exit_scope; binop/binop_int/binop_byte/binop_bool (operand order, failure leaves the stack untouched); interpreter arms Pop, Slide, Push, PushInt/Byte/Float, GetOffset, Split, ConstructVariant, ConstructRecord, ConstructArray, MakeClosure, TailCall (run-time effect = static effect; constructed value has exactly the top args values as fields in order); Instruction::adjust against the documented stack-effect table, ProgramCounter index safety, the && and || blocks of compile_primitive (short-circuit layout); core::Binder::into_expr (bindings of a record update / constructor application become nested lets in binding order) and the base case of the match compilation (the first matching equation wins). Kani (full domain): the 18 arithmetic/comparison interpreter arms (expression text parsed from execute_ every run) against Z / IEEE and the operator-name -> opcode table. Partial: translation to core and compile_ are not under contract.",
-    note="Trusted: env.rs stand-ins and rewrite rules listed in evidence; MultiplyInt/DivideInt references are core's checked_mul and the language's `/`; for arms/blocks/tails the wrapper signature is mine (free variables become parameters). Translator and PatternTranslator (other than Binder::into_expr and the no-variables base case), Compiler::compile_ (other than the two blocks), the remaining interpreter arms, rename, implicits are unverified.",
+    text="Proof of the leaf operations the reference semantics bottoms out in and of the call/return protocol. Verus (unbounded, extracted every run): 21 Stack/StackFrame primitives against a Seq<Value> view, index_from, Deref; call_function_with_upvars (exact / partial / over-application layouts), the PartialApplication arm of do_call, the return statements of execute_ and ExecuteContext::exit_scope; binop/binop_int/binop_byte/binop_bool (operand order, failure leaves the stack untouched); interpreter arms Pop, Slide, Push, PushInt/Byte/Float, GetOffset, Split, ConstructVariant, ConstructRecord, ConstructArray, MakeClosure, TailCall (run-time effect = static effect; constructed value has exactly the top args values as fields in order); Instruction::adjust against the documented stack-effect table, ProgramCounter index safety, the && and || blocks of compile_primitive (short-circuit layout), the fix-up of a recursive value in compile_ (placeholder becomes NewRecord/NewVariant with the constructor's layout, the constructor becomes CloseData on the slot of the i-th binding of the group); core::Binder::into_expr (bindings of a record update / constructor application become nested lets in binding order) and the base case of the match compilation (the first matching equation wins). Kani (full domain): the 18 arithmetic/comparison interpreter arms (expression text parsed from execute_ every run) against Z / IEEE and the operator-name -> opcode table. Partial: translation to core and compile_ are not under contract.",
+    note="Trusted: env.rs stand-ins and rewrite rules listed in evidence; MultiplyInt/DivideInt references are core's checked_mul and the language's `/`; for arms/blocks/tails the wrapper signature is mine (free variables become parameters). Translator and PatternTranslator (other than Binder::into_expr and the no-variables base case), Compiler::compile_ (other than the two blocks of compile_primitive and the rec-value fix-up), the remaining interpreter arms, rename, implicits are unverified.",
     technique="Verus contracts on extracted bodies + generated Kani harnesses over the interpreter arm table",
     design="2/C01"),
  "C06": dict(
-    text="Proof (Kani, full argument domains; &str arguments bounded to <= 2 chars and labelled bounded) that every scalar primitive registered in load_int/load_byte/load_char/load_float/load_string - the registered expression text itself, parsed from the tables every run - and each of the 18 arithmetic/comparison arms of the interpreter neither panics nor traps nor exhibits UB on any well-typed argument; Verus contracts on StackFrame::exit_scope (a locked frame is never popped), reset_stack (exactly the frames above the recorded level are removed), the error closures of call_thunk_top and execute_io_top (whatever kind of error ends a top-level evaluation, the frames above the recorded level are removed), host calls of gluon functions (call_any_first + the helper reset_after_error: a failed call is reported through the same stack reset), the ready path of return_future's poll closure (the primitive's frame is unlocked on every path), async_status_push (a failed push becomes Status::Error and cannot itself fail), the blanket async_push of synchronous results (frame unlocked whether or not the push fails), RuntimeResult::vm_push / IO::vm_push (Panic / Exception => Err, stack untouched), ValueArray::get (unchecked element read only behind index < len), the validation head of array::slice, std.random gen_int_range, std.io write_slice_file / read_file (the last three against documented contracts of dependencies). Found and repaired five classes of host-aborting primitives and the missing stack reset of failed host calls (Function::call); found (and recorded as a known finding) that reset_stack does not reclaim the values of a failed run.",
-    note="Trusted: debug-profile semantics; alloc::fmt::format stubbed; pow's overflow trap asserted through checked_pow because Kani does not model it; assumed dependency contracts (rand random_range panics on an empty range, Vec::with_capacity panics above isize::MAX bytes, slice indexing panics out of range); 51 table entries (libm floats, string searchers, unicode tables, Thread-dependent) are skipped and listed in evidence; strings longer than 2 chars are not explored; userdata/regex/most IO primitives, unpack_and_call (macro-generated), the callers of call_thunk_top and the rest of the future plumbing are unverified; in the toplevel unit Context/Stack are projected on frame list + lock flag and reset_stack's contract is assumed (proved in the stack unit). Known finding C06/thread/reset_stack_values is reported, not repaired.",
+    text="Proof (Kani, full argument domains; &str arguments bounded to <= 2 chars and labelled bounded) that every scalar primitive registered in load_int/load_byte/load_char/load_float/load_string - the registered expression text itself, parsed from the tables every run - and each of the 18 arithmetic/comparison arms of the interpreter neither panics nor traps nor exhibits UB on any well-typed argument; Verus contracts on StackFrame::exit_scope (a locked frame is never popped), reset_stack (exactly the frames above the recorded level are removed), the error closures of call_thunk_top and execute_io_top (whatever kind of error ends a top-level evaluation, the frames above the recorded level are removed), the call site evaluating a module's top-level expression (src/query.rs global_inner: a failed evaluation leaves the VM stack as found), host calls of gluon functions (call_any_first + the helper reset_after_error: a failed call is reported through the same stack reset), the ready path of return_future's poll closure (the primitive's frame is unlocked on every path), async_status_push (a failed push becomes Status::Error and cannot itself fail), the blanket async_push of synchronous results (frame unlocked whether or not the push fails), RuntimeResult::vm_push / IO::vm_push (Panic / Exception => Err, stack untouched), ValueArray::get (unchecked element read only behind index < len), the validation head of array::slice, std.random gen_int_range, std.io write_slice_file / read_file (the last three against documented contracts of dependencies). Found and repaired five classes of host-aborting primitives and the missing stack reset of failed host calls (Function::call); found (and recorded as a known finding) that reset_stack does not reclaim the values of a failed run.",
+    note="Trusted: debug-profile semantics; alloc::fmt::format stubbed; pow's overflow trap asserted through checked_pow because Kani does not model it; assumed dependency contracts (rand random_range panics on an empty range, Vec::with_capacity panics above isize::MAX bytes, slice indexing panics out of range); 51 table entries (libm floats, string searchers, unicode tables, Thread-dependent) are skipped and listed in evidence; strings longer than 2 chars are not explored; userdata/regex/most IO primitives, unpack_and_call (macro-generated), the callers of call_thunk_top other than global_inner (whose `.await` is dropped: R-await) and the rest of the future plumbing are unverified; in the toplevel unit Context/Stack are projected on frame list + lock flag and reset_stack's contract is assumed (proved in the stack unit). Known finding C06/thread/reset_stack_values is reported, not repaired.",
     technique="generated Kani harnesses (one per primitive!() table entry and per arithmetic interpreter arm) + Verus contracts on extracted bodies",
     design="2/C06"),
  "C07": dict(
-    text="Proof of the three limit computations: Kani (symbolic counters, full usize domain) on the real Gc::alloc_owned (accounted memory never exceeds the limit; failure leaves the heap untouched) and check_collect; Verus on the real add_new_frame (frame entered iff len + max_stack_size <= limit), enter_scope / enter_scope_excess, on the per-instruction step of static stack accounting (adjust/emit/increase_stack/emit_call), on the tail flag of the && / || operands, on every TailCall arm of the interpreter (frame list shrinks and the new call reuses the returning function's slot: constant stack) on ExecuteContext::exit_scope, and on the head of the frame loop of OwnedContext::execute (every pass -- call, tail call, return -- polls the interrupt flag before dispatching), on Thread::interrupted (a pure poll: it does not write the flag) and on the statement that compiles a match alternative's body (inherits the tail flag). Also: a spawned thread inherits its spawner's memory limit (Gc::new_child_gc) and stack limit (Thread::new_thread). Found and repaired the header-not-counted defect and the unlimited stack of spawned threads.",
-    note="Trusted: get_type_info stubbed; allocated_memory <= isize::MAX; no u32 wrap in len+max_stack_size; operand_fits; the interrupt flag is a pure read for one loop iteration and the rest of the loop body is not in the extracted head. That one pass of the loop takes bounded time (extern functions), native-stack depth and the induction over compile_ are not under contract.",
+    text="Proof of the three limit computations: Kani (symbolic counters, full usize domain) on the real Gc::alloc_owned (accounted memory never exceeds the limit; failure leaves the heap untouched) and check_collect; Verus on the real add_new_frame (frame entered iff len + max_stack_size <= limit), enter_scope / enter_scope_excess, on the per-instruction step of static stack accounting (adjust/emit/increase_stack/emit_call), on the tail flag of the && / || operands, on every TailCall arm of the interpreter (frame list shrinks and the new call reuses the returning function's slot: constant stack) on ExecuteContext::exit_scope, and on the head of the frame loop of OwnedContext::execute (every pass -- call, tail call, return -- polls the interrupt flag before dispatching), on Thread::interrupted (a pure poll: it does not write the flag) and on the statements of compile_'s Match arm from the binding of an alternative's pattern to the compilation of its body (the body inherits the tail flag whatever the pattern binds). Also: a spawned thread inherits its spawner's memory limit (Gc::new_child_gc) and stack limit (Thread::new_thread). Found and repaired the header-not-counted defect and the unlimited stack of spawned threads.",
+    note="Trusted: get_type_info stubbed; allocated_memory <= isize::MAX; no u32 wrap in len+max_stack_size; operand_fits; the interrupt flag is a pure read for one loop iteration and the rest of the loop body is not in the extracted head; the statement that binds a match alternative's pattern variables is abstracted to an opaque call. That one pass of the loop takes bounded time (extern functions), native-stack depth and the induction over compile_ are not under contract.",
     technique="Kani harnesses on the real allocator + Verus contracts on extracted bodies",
     design="2/C07"),
  "C08": dict(
-    text="Partial proof: built-in operator fixity table (real OpTable::get, concrete enumeration, Kani); the span algebra (Span::new/to/between/until/with_*/subspan/from_offset, Location::shift; full u32 domain, Kani) that parser actions and 'spans delimit the text' are built from; and three Verus contracts on text extracted every run: the shift/reduce step of the operator-precedence re-parse (lower precedence or equal+both-left reduces, higher or equal+both-right shifts, equal precedence with different associativity is reported as ConflictingFixities), the final fold of reparse (operators still pending group to the right, in order, over all operands; inductive invariant + lemma; the closing assertion and unwraps cannot fire), and shrink_hidden_spans against a specification of where each expression kind visibly ends (singleton block flattening included).",
-    note="No grouping theorem for reparse as a whole: the token loop that connects step and final fold, the Infixes iterator and error recovery are not under contract; `make_op` is uninterpreted. shrink unit: AST projected on spans and last sub-expressions, slice patterns desugared to length tests, Span::new's ordering contract assumed there (proved by the Kani harness). The layout algorithm, tokenizer and grammar are NOT under contract. User-declared fixities overriding built-ins is only a structural Verus check (hash maps are intractable for CBMC).",
-    technique="Kani harnesses (complete: loop-free or concrete) on compiled code + Verus contracts on a block, a statement tail and a function extracted from the parser",
+    text="Partial proof: built-in operator fixity table (real OpTable::get, concrete enumeration, Kani); the span algebra (Span::new/to/between/until/with_*/subspan/from_offset, Location::shift; full u32 domain, Kani) that parser actions and 'spans delimit the text' are built from; and Verus contracts on text extracted every run: the shift/reduce step of the operator-precedence re-parse (lower precedence or equal+both-left reduces, higher or equal+both-right shifts, equal precedence with different associativity is reported as ConflictingFixities), the final fold of reparse (operators still pending group to the right, in order, over all operands; inductive invariant + lemma; the closing assertion and unwraps cannot fire), shrink_hidden_spans against a specification of where each expression kind visibly ends (singleton block flattening included), the fold step of the BlockExpr grammar action (taken from grammar.lalrpop: `e; rest` becomes Do { bound: e, body: rest } spanning start of e .. end of rest), the layout algorithm's context-stack operations (Contexts::push/pop, Offside::new) and its arm for an explicit `in` closing a let/type/rec context (body block opened at the location of the enclosing context, separator flag cleared, OpenBlock queued), and Tokenizer::block_comment with take_until (a block comment ends at the first `*/` behind its opening and scanning resumes right behind it; EOF error only if there is none; inductive invariants).",
+    note="No grouping theorem for reparse as a whole: the token loop that connects step and final fold, the Infixes iterator and error recovery are not under contract; `make_op` is uninterpreted. shrink unit: AST projected on spans and last sub-expressions, slice patterns desugared to length tests, Span::new's ordering contract assumed there (proved by the Kani harness). Of the layout algorithm only the explicit-in arm and the stack operations, of the tokenizer only block_comment/take_until (one-byte primitives bump/lookahead assumed, string operations of the doc-comment branch opaque), of the grammar only that one action are under contract; check_unindentation_limit is assumed not to change the stack. User-declared fixities overriding built-ins is only a structural Verus check (hash maps are intractable for CBMC).",
+    technique="Kani harnesses (complete: loop-free or concrete) on compiled code + Verus contracts on functions, blocks, arms and a grammar action extracted from the parser sources",
     design="2/C08"),
  "C20": dict(
-    text="Proof that span containment is total and trichotomous and is_macro_expanded exact (Kani, full u32 domain); that FindVisitor::select_spanned, for ANY number of ordered siblings and any cursor, terminates without panic and selects the first containing sibling / the right neighbour (Verus, unbounded, with Kani instances N = 1..4 as bounded twins on the compiled code); and that visit_one and the tuple-pattern arm of visit_pattern never panic, including on an empty sibling list, nor does the as-pattern arm of Suggest::on_pattern on an ill-typed pattern. Found and repaired the empty-array panic and the unit-pattern panic.",
-    note="Verus side: Peekable over the sibling list modelled with std's peek/next semantics, the span closure as a field read, Span::containment's contract taken from the Kani proof. AST traversal (visit_expr/visit_pattern), suggestion scoping, type agreement, signature_help and metadata queries are not under contract.",
-    technique="Kani harnesses on compiled code + Verus contract with inductive loop invariant on the extracted body",
+    text="Proof that span containment is total and trichotomous and is_macro_expanded exact (Kani, full u32 domain); that FindVisitor::select_spanned, for ANY number of ordered siblings and any cursor, terminates without panic and selects the first containing sibling / the right neighbour (Verus, unbounded, with Kani instances N = 1..4 as bounded twins on the compiled code); and that visit_one and the tuple-pattern arm of visit_pattern never panic, including on an empty sibling list, nor does the as-pattern arm of Suggest::on_pattern on an ill-typed pattern; for record patterns: a field `name = pattern` occupies label..end of pattern (so a cursor inside the nested pattern selects it), the position search reports the label with the type of that field / descends into the nested pattern / reports nothing, and only the variables of the nested pattern (not the label) come into scope for suggestions; the argument index of signature_help is total on empty argument lists (applications with only implicit arguments). Found and repaired the empty-array panic and the unit-pattern panic.",
+    note="Verus side: Peekable over the sibling list modelled with std's peek/next semantics, the span closure as a field read, Span::containment's contract taken from the Kani proof. row lookup of a field's type and iterator `position` are named helpers with std semantics; a ghost log records which nodes the search descends into. The rest of the AST traversal (visit_expr, other arms of visit_pattern), scoping in expressions, the rest of signature_help and the metadata queries are not under contract.",
+    technique="Kani harnesses on compiled code + Verus contracts on the extracted body (inductive loop invariant), match arms, a closure and a statement range",
     design="2/C20"),
 }
 
